@@ -363,7 +363,7 @@ def expected(model, case):
 # ------------------------------------------------------------------ comparison
 def compare(case, got, exp, mode):
     if 'exc' in got or 'crash' in got:
-        return ['apply raised/crashed: %s' % (str({k: got[k] for k in got if k != 'tb'})[:300])]
+        return ['apply raised %s: %s' % (got.get('exc', 'CRASH'), str({k: got[k] for k in got if k != 'tb'})[:300])]
     bad = []
     if got['keys'] != exp['keys']:
         bad.append('result sectors %s != input sectors %s' % (got['keys'], exp['keys']))
@@ -426,7 +426,23 @@ def sparse_normal_orders_to_zero(case):
     return all(len(t) == 0 or abs(c) < 1e-12 for t, c in op.terms.items())
 
 
+def nb_few_terms(case):
+    """number-broken wavefunction and a FermionOperator with <= 2 terms: build_hamiltonian
+    routes it to SparseHamiltonian, which neither transforms to the spin-broken picture nor
+    accepts number-changing strings"""
+    if case['mode'] != 'nb' or case['ham']['cls'] != 'fop':
+        return False
+    from openfermion import FermionOperator
+    op = FermionOperator()
+    for ops, re, im in case['ham']['entries']:
+        op += FermionOperator(tuple((q, d) for q, d in ops), complex(re, im))
+    op.compress()
+    return len(op.terms) <= 2
+
+
 def classify(case, mode, bad, got, exp):
+    if nb_few_terms(case) and not sparse_normal_orders_to_zero(case):
+        return 'F-C01-nb-few-terms'
     if sparse_normal_orders_to_zero(case) and 'exc' not in got and 'crash' not in got:
         return 'F-C01-empty-sparse-is-identity'
     if in_spinorb_single_sector_class(case) and 'exc' not in got and 'crash' not in got:
